@@ -100,7 +100,7 @@ static unsigned long junk_seed = 1;
 static int junk_pat;
 static long max_events = 200000, max_lex = 100000;
 static int realloc_moves = 1;
-static int allow_mask; /* bit0: %array yyless after yymore; bit1: buffer switch in yywrap with yymore pending */
+static int allow_mask; /* bit0: %array yyless after yymore; bit1: buffer switch in yywrap with yymore pending; bit2: yyinput() again after it reported end of input */
 
 static const sim_scanner_vt *scanners[32];
 static int nscanners;
@@ -687,10 +687,15 @@ static int resolve(sim_inst *I, const plan_op *po, sim_xop *x, int in_action)
 		 * documented combination: never generated */
 		if (!in_action || I->is_eof || I->did_bufop || I->did_more)
 			return 0;
+		if (I->input_eof && !(allow_mask & 4))
+			return 0;
 		x->a = po->a & 0xff;
 		return 1;
 	case SOP_INPUT:
 		if (!in_action || I->is_eof || I->did_bufop || I->did_more)
+			return 0;
+		/* known finding K-input-again-at-eof, probed separately */
+		if (I->input_eof && !(allow_mask & 4))
 			return 0;
 		return 1;
 	case SOP_MORE:
@@ -873,6 +878,7 @@ void sim_enter(int rule, int is_eof, const char *text, int leng, int start,
 	I->prev_more = 0;
 	I->rejected = 0;
 	I->did_textop = I->did_less = I->did_bufop = I->did_more = I->n_ops = 0;
+	I->input_eof = 0;
 	I->provided_input = 0;
 	while (X->act_pos < X->acts.n && X->acts.v[X->act_pos].ord < I->act_ord)
 		X->act_pos++;
@@ -900,6 +906,7 @@ int sim_next_op(sim_xop *x)
 			continue;
 		log_xop("O", (int) (po - X->acts.v), x);
 		I->n_ops++;
+		I->wrap_stop_in_op = 0;
 		switch (x->code) {
 		case SOP_LESS: I->did_less = 1; I->cur_len = (int) x->a; break;
 		case SOP_UNPUT: case SOP_INPUT: I->did_textop = 1; break;
@@ -935,6 +942,9 @@ void sim_leave(void)
 
 void sim_res_int(const char *what, long v)
 {
+	sim_inst *I = sim_cur;
+	if (I && I->in_action && v == 0 && I->wrap_stop_in_op && !strcmp(what, "input"))
+		I->input_eof = 1;
 	ev("V %s=%ld", what, v);
 }
 void sim_res_text(const char *what, const char *text, int leng)
@@ -982,6 +992,7 @@ int sim_wrap_next(sim_xop *x)
 		return x->code;
 	}
 	x->code = SOP_STOP;
+	I->wrap_stop_in_op = 1;
 	ev("W -1 STOP a=0 b=0 h=-1");
 	return SOP_STOP;
 }
